@@ -207,7 +207,7 @@ def replayEvent (r : Replay) (ag : Nat) (ws : List String) : Except String Repla
   | "setup-done" :: _ => return { r with started := true }
   | kind :: args =>
     if !r.started then return r
-    if ["callers-done", "all-completed", "quiet", "finished", "oraclefail", "start", "exit", "join", "wait", "woke"].contains kind then return r
+    if ["callers-done", "all-completed", "quiet", "finished", "oraclefail", "start", "exit", "join", "wait", "woke", "obs"].contains kind then return r
     if kind == "inv" then
       let id := parseNatD (args.getD 0 "")
       let k := args.getD 1 ""
